@@ -659,6 +659,9 @@ def check(facts, rep, tier, cfg):
         rep.floor("C19.R11", "error conversions on the connect path", k11, 2)       # map_err mappers + constructions on an Err edge
     # ---- R8 (io kinds, wildcard arms): the classification of std::io::Error by kind, evaluated per kind over the CFG
     r8_io_kinds(facts, rep, crate)
+    rep.rule("C19.S7", "no new process-wide mutable state (static cell / lock / once-cell) in the files this property is anchored in")
+    import whomay
+    whomay.check_new_statics(facts, rep, "C19.S7", "C19")
 
 
 IO_RETRY = ["ConnectionRefused", "ConnectionReset", "ConnectionAborted", "NotConnected", "BrokenPipe", "TimedOut", "UnexpectedEof",
